@@ -35,9 +35,34 @@ type InferCase struct {
 
 var marshalerT = reflect.TypeFor[json.Marshaler]()
 
+// json.Number: a string kind that encoding/json writes and reads as a number; For gives it the
+// schema for numbers (the model knows it, like the marshaler types, as an opaque type with an entry)
+var jsonNumberT = reflect.TypeFor[json.Number]()
+
+func containsType(t, what reflect.Type, seen map[reflect.Type]bool) bool {
+	if t == what {
+		return true
+	}
+	if seen[t] {
+		return false
+	}
+	seen[t] = true
+	switch t.Kind() {
+	case reflect.Pointer, reflect.Slice, reflect.Array, reflect.Map:
+		return containsType(t.Elem(), what, seen)
+	case reflect.Struct:
+		for i := 0; i < t.NumField(); i++ {
+			if containsType(t.Field(i).Type, what, seen) {
+				return true
+			}
+		}
+	}
+	return false
+}
+
 func isStd(t reflect.Type) bool {
 	switch t {
-	case reflect.TypeFor[time.Time](), reflect.TypeFor[big.Int](), reflect.TypeFor[big.Rat](), reflect.TypeFor[big.Float]():
+	case reflect.TypeFor[time.Time](), reflect.TypeFor[big.Int](), reflect.TypeFor[big.Rat](), reflect.TypeFor[big.Float](), jsonNumberT:
 		return true
 	}
 	return t.PkgPath() == "log/slog" && t.Name() == "Level"
@@ -248,6 +273,8 @@ func genTyped(r *rng, t reflect.Type, depth int, nilEmb *bool) reflect.Value {
 			v.Set(reflect.ValueOf(time.Unix(int64(r.intn(2000000000)), int64(r.intn(2))*500).UTC()))
 		case reflect.TypeFor[big.Int]():
 			v.Set(reflect.ValueOf(*big.NewInt(int64(r.intn(1000)) - 500)))
+		case jsonNumberT:
+			v.SetString(pick(r, []string{"0", "12", "-1.5", "1e2", "", "9007199254740992", "0.25"}))
 		default:
 			if t.Kind() == reflect.Int {
 				v.SetInt(int64(pick(r, []int{-4, 0, 4, 8, 3})))
@@ -368,6 +395,9 @@ func tsMenu(r *rng, root reflect.Type) (map[reflect.Type]*js.Schema, []reflect.T
 			continue
 		}
 		var s *js.Schema
+		if t == jsonNumberT {
+			continue
+		}
 		if isStd(t) {
 			s = pick(r, []*js.Schema{{Type: "string", Format: "date-time"}, {Type: "integer"}, nil})
 			if s == nil && t.Kind() != reflect.Struct {
@@ -478,6 +508,9 @@ func (c *InferCase) sx() string {
 	str := &js.Schema{Type: "string"}
 	for _, n := range []string{"time.Time", "slog.Level", "big.Int", "big.Rat", "big.Float"} {
 		fmt.Fprintf(&b, " ((%s) %s)", sxStr(n), sxSchema(str))
+	}
+	if containsType(c.Z.T, jsonNumberT, map[reflect.Type]bool{}) {
+		fmt.Fprintf(&b, " ((%s) %s)", sxStr("json.Number"), sxSchema(&js.Schema{Type: "number"}))
 	}
 	b.WriteString(")) (vals")
 	for _, v := range c.Vals {
